@@ -905,6 +905,10 @@ def _run_rest(ctx, pool, rb, rm):
         rstd = ctx.tlc("MC_SchemaStore", ctx.cfg("MC_SchemaStore_genstd.cfg", same if ctx.seed % 2 else slash), workers=1, timeout=3000,
                        label="generation: stand-alone standard schema, every schema reachable by <= 2 edits")
         std_cases = [j for j in rstd.json_lines if "edits" in j]
+        # every other stand-alone case calls its new node Gr\u00f6\u00dfe instead of Kappa: a legal tag name whose case-folded
+        # form ("gr\u00f6sse") differs from its lower-case form - it has children and value children like any other node
+        std_cases = [json.loads(json.dumps(j).replace("Kappa", "Gr\\u00f6\\u00dfe")) if (n + ctx.seed) % 2 == 0 else j
+                     for n, j in enumerate(std_cases)]
     finally:
         for m in made:
             os.remove(os.path.join(tlc.SPECS, m))
